@@ -195,18 +195,18 @@ func (t Text) SplitByRune(r rune) []Text {
 // TrimWcwidth returns the largest prefix of t that does not exceed the given
 // visual width.
 func (t Text) TrimWcwidth(wmax int) Text {
-	var newt Text
+	var tb TextBuilder
 	for _, seg := range t {
 		w := wcwidth.Of(seg.Text)
-		if w >= wmax {
-			newt = append(newt,
-				&Segment{seg.Style, wcwidth.Trim(seg.Text, wmax)})
+		if w > wmax {
+			tb.WriteText(TextFromSegment(
+				&Segment{seg.Style, wcwidth.Trim(seg.Text, wmax)}))
 			break
 		}
 		wmax -= w
-		newt = append(newt, seg)
+		tb.WriteText(TextFromSegment(seg))
 	}
-	return newt
+	return tb.Text()
 }
 
 // String returns a string representation of the styled text. This now always
